@@ -25,14 +25,24 @@ RULE = ("Histories of 5..60 (thorough ..300) operations over scalars A$..D$, P$(
         "LET with expressions built from literals, variables, +, LEFT$/RIGHT$/MID$ (counts 0, "
         "LEN+1 and other early-return boundaries), STRING$/SPACE$/CHR$, INSTR and LEN as numeric "
         "arguments and a user function FNS$; MID$=, LSET, RSET (incl. self-overlap), SWAP, "
-        "ERASE+DIM, expression evaluation without assignment, FRE(\"\"), FRE(0), CLEAR ,size; "
+        "ERASE+DIM, expression evaluation without assignment, FRE(\"\"), FRE(0), CLEAR in the "
+        "forms CLEAR / CLEAR ,n / CLEAR ,n,s / CLEAR ,,s / CLEAR e,n (after each, PEEK(&H2C..2D) "
+        "and FRE(\"\") must show the requested size), and 'fit' operations that steer to the "
+        "allocation boundary: uncollected free space FRE(0) == size-1, size, size+1 with "
+        "reclaimable garbage (the allocation must succeed after a collection), and "
+        "post-collection free space == size-1, size, size+1, size+2; "
         "string space limited to 120..4000 bytes (or default) so that collections happen inside "
         "expressions; statements that fail with String too long / Illegal function call / Out of "
         "string space part-way. Non-trivial: at least one garbage collection ran while a non-empty "
         "string variable assigned earlier was live (and was read back afterwards); distinct = "
         "distinct operation list.")
 ASSUMPTIONS = [
-    "FRE(\"\") must equal PEEK(&H2C..2D) - stack size - 2 - PEEK(&H35C..5D) - sum of live string "
+    "the memory size and stack size are the model's: manual defaults 65534 and 512, then whatever "
+    "the last CLEAR requested; PEEK(&H2C..2D) must equal that memory size after every CLEAR",
+    "an allocation of n bytes must succeed when more than n bytes are free after a collection; "
+    "with exactly n bytes free either outcome is accepted (the unchanged tree keeps one spare "
+    "byte: check_free refuses when free <= n), with fewer it must fail",
+    "FRE(\"\") must equal memory size - stack size - 2 - PEEK(&H35C..5D) - sum of live string "
     "lengths (direct mode; all non-empty values live in string space); in prog mode code-resident "
     "literals take no string space, so only the lower bound is asserted",
     "FRE(0) (no collection) may be anything between 0 and the post-collection value",
@@ -68,6 +78,7 @@ class Model(object):
         self.qdim = qdim
         self.p = [b''] * (pdim + 1)
         self.q = [[b''] * (qdim[1] + 1) for _ in range(qdim[0] + 1)]
+        self.fill = [b''] * 4      # F0$..F3$: filler variables of the 'fit' operations
 
     def resolve(self, t):
         if t[0] == 's':
@@ -103,7 +114,7 @@ class Model(object):
 
     def live_bytes(self):
         return (sum(len(v) for v in self.sc) + sum(len(v) for v in self.p)
-                + sum(len(v) for row in self.q for v in row))
+                + sum(len(v) for row in self.q for v in row) + sum(len(v) for v in self.fill))
 
     def snapshot(self):
         return (list(self.sc), list(self.p), [list(r) for r in self.q])
@@ -317,6 +328,8 @@ class Runner(object):
         self.gc_with_live = 0
         self.in_op = False
         self.rot = 0
+        self.total = 65534          # memory size: manual default, then the last CLEAR ,n
+        self.stack = 512            # stack size: manual default, then the last CLEAR ,,s
         self.op_aliases = False
         self.cur_op = None
         self.gc_in_op = False
@@ -372,7 +385,8 @@ class Runner(object):
     def setup_vars(self):
         """(Re)create the variables after the start of the case or a CLEAR."""
         m = self.m
-        o = self.run(b'A$="":B$="":C$="":D$="":N%%=0:DIM P$(%d),Q$(%d,%d)' % (
+        o = self.run(b'A$="":B$="":C$="":D$="":F0$="":F1$="":F2$="":F3$="":N%%=0:'
+                     b'DIM P$(%d),Q$(%d,%d)' % (
             m.pdim, m.qdim[0], m.qdim[1]), 'setup')
         if o.errors:
             # memory too small even for the variables: nothing to test
@@ -401,28 +415,71 @@ class Runner(object):
 
     def model_free(self):
         """Free bytes after a collection according to the documented pointers and the model."""
-        top = self.peek16(0x2c)
+        # the memory and stack sizes are the model's (requested with CLEAR, manual defaults
+        # 65534 / 512), not read back from the implementation
+        top = self.total
         arrend = self.peek16(0x35c)
-        return top - STACK - 2 - arrend - self.m.live_bytes(), top, arrend
+        return top - self.stack - 2 - arrend - self.m.live_bytes(), top, arrend
 
-    def clear_to(self, slack):
-        """CLEAR ,n leaving about `slack` bytes for strings; None = leave the size alone."""
-        if slack is not None:
-            varstart = self.peek16(0x358)
-            # variables and arrays recreated by setup_vars: measured generously
-            m = self.m
-            overhead = (4 * 7 + 8 + (7 + 2 + 3 * (m.pdim + 1))
-                        + (7 + 4 + 3 * (m.qdim[0] + 1) * (m.qdim[1] + 1)) + 60)
-            size = varstart + overhead + STACK + 2 + slack
-            total = self.peek16(0x2c)
-            if size < total:
-                o = self.run(b'CLEAR ,%d' % size, 'clear')
-                if o.errors:
-                    self.fail('clear.error', 'CLEAR ,%d -> %r' % (size, o.errors))
-                return
-        o = self.run(b'CLEAR', 'clear')
+    def clear_to(self, slack, form='n', newstack=None, fixed_size=None):
+        """
+        CLEAR in one of its forms, leaving about `slack` bytes for strings (None = size alone):
+        'n' CLEAR ,n   'ns' CLEAR ,n,s   's' CLEAR ,,s   'en' CLEAR e,n   'plain' CLEAR
+        """
+        m = self.m
+        varstart = self.peek16(0x358)
+        # variables and arrays recreated by setup_vars: measured generously
+        overhead = (8 * 7 + 8 + (7 + 2 + 3 * (m.pdim + 1))
+                    + (7 + 4 + 3 * (m.qdim[0] + 1) * (m.qdim[1] + 1)) + 60)
+        stack = self.stack
+        if form in ('ns', 's') and newstack:
+            # a stack size that still leaves room below the current memory size
+            if self.total - newstack - 2 - varstart - overhead >= 100:
+                stack = newstack
+        size = None
+        if slack is not None and form in ('n', 'ns', 'en'):
+            size = varstart + overhead + stack + 2 + slack
+            if size >= self.total:
+                size = None
+        if fixed_size and fixed_size < self.total and form in ('n', 'ns', 'en'):
+            size = fixed_size
+            slack = slack or 0
+        if form == 'en' and size is not None:
+            text = b'CLEAR %d,%d' % (slack % 7, size)
+        elif form == 'ns' and size is not None:
+            text = b'CLEAR ,%d,%d' % (size, stack)
+        elif form == 'n' and size is not None:
+            text = b'CLEAR ,%d' % size
+        elif form in ('ns', 's') and stack != self.stack:
+            text = b'CLEAR ,,%d' % stack
+        else:
+            text = b'CLEAR'
+            stack = self.stack
+        self.res.label('clear-form:' + ('e,n' if text[6:7].isdigit() else
+                                        ',n,s' if text.count(b',') == 2 and size else
+                                        ',,s' if text.count(b',') == 2 else
+                                        ',n' if size else 'plain'))
+        o = self.run(text, 'clear')
         if o.errors:
-            self.fail('clear.error', 'CLEAR -> %r' % (o.errors,))
+            self.fail('clear.error', '%r -> %r' % (text, o.errors))
+        if size is not None:
+            self.total = size
+        self.stack = stack
+        # the documented pointer to the end of BASIC's memory must show the requested size
+        got = self.peek16(0x2c)
+        if got != self.total:
+            self.fail('clear.size-not-set', 'after %r PEEK(&H2C..2D) = %d, requested/kept memory '
+                      'size is %d' % (text, got, self.total))
+        self.last_clear = text
+
+    def check_clear_fre(self):
+        """After CLEAR (and re-creating the empty variables) FRE must match the requested size."""
+        fre = self.evaluate(b'FRE("")')
+        exp, top, arrend = self.model_free()
+        if fre != exp:
+            self.fail('clear.fre-mismatch', 'after %r: FRE("") = %r, expected %d = memory size %d '
+                      '- stack %d - 2 - end of arrays %d' % (
+                          self.last_clear, fre, exp, top, self.stack, arrend))
 
     # -- checks
 
@@ -444,6 +501,13 @@ class Runner(object):
             self.fail('value.array1', 'P$() after %s: %r, model %r' % (where, got_p, m.p))
         if got_q != m.q:
             self.fail('value.array2', 'Q$() after %s: %r, model %r' % (where, got_q, m.q))
+        try:
+            got_f = [self.sess.get('F%d$' % i) for i in range(4)]
+        except Exception as e:      # noqa: B902
+            self.fail(bc.exc_key(e), 'reading variables back after %s: %r' % (where, e))
+        if got_f != m.fill:
+            self.fail('value.scalar', 'F0$..F3$ after %s: %r, model %r' % (
+                where, [v[:20] for v in got_f], [v[:20] for v in m.fill]))
         # one variable per check is also read from BASIC (expression path), in rotation
         self.rot += 1
         k = self.rot
@@ -627,11 +691,119 @@ class Runner(object):
         elif o_ == 'fre':
             self.check_fre(bool(op.get('s')), 'step %d' % idx)
         elif o_ == 'clear':
-            self.clear_to(op.get('slack'))
+            self.clear_to(op.get('slack'), op.get('form', 'n'), op.get('stack'), op.get('size'))
             m.reset(m.pdim, m.qdim)
             self.setup_vars()
+            self.check_clear_fre()
+        elif o_ == 'fit':
+            self.do_fit(idx, op)
         else:
             raise ValueError(o_)
+
+    # -- exact-fit operations
+
+    def alloc(self, name, n, c, idx, setter):
+        """`name=STRING$(n,c)`: must succeed when the model has more than n bytes after a
+        collection (the unchanged tree keeps one spare byte: fails when free <= n)."""
+        free, _, _ = self.model_free()
+        text = b'%s=STRING$(%d,%d)' % (name, n, c)
+        o = self.run(text, 'step %d' % idx)
+        if o.errors:
+            code = o.errors[0][0]
+            self.pending_after_error = True
+            if code == 14 and free <= n:
+                self.res.label('err:14', 'oom-accepted')
+                return False
+            self.fail('oom.spurious' if code in (14, 7) else 'stmt.spurious-error',
+                      'step %d %r: error %d although %d bytes are free after a collection '
+                      '(needs %d)' % (idx, text, code, free, n))
+        setter(bytes([c]) * n)
+        return True
+
+    def do_fit(self, idx, op):
+        m = self.m
+        res = self.res
+        L = max(1, min(255, op['len']))
+        d = op['d']
+        c = 33 + op['c'] % 90
+        want = L + d
+        tname = m.name(op['t']).encode()
+
+        def set_fill(k):
+            def f(v):
+                m.fill[k] = v
+            return f
+        # empty the fillers first (no allocation)
+        if any(m.fill):
+            self.run(b'F0$="":F1$="":F2$="":F3$=""', 'step %d' % idx)
+            m.fill = [b''] * 4
+        if want < 1:
+            res.label('fit-skipped')
+            return
+        if op['when'] == 'after':
+            # post-collection free space == L + d, reached with live fillers
+            if self.prog:
+                res.label('fit-skipped')
+                return
+            free, _, _ = self.model_free()
+            excess = free - want
+            if excess < 0 or excess > 4 * 255:
+                res.label('fit-skipped')
+                return
+            for k in range(4):
+                n = min(255, excess)
+                if n:
+                    if not self.alloc(b'F%d$' % k, n, 70 + k, idx, set_fill(k)):
+                        return
+                    excess -= n
+            fre = self.evaluate(b'FRE("")')
+            if fre != want:
+                self.fail('fre.mismatch', 'step %d: fillers placed for %d free bytes, FRE("") = %r'
+                          % (idx, want, fre))
+            res.label('exact-fit-after-gc', 'exact-fit-after-gc:free-size=%+d' % d)
+            text = b'%s=STRING$(%d,%d)' % (tname, L, c)
+            o = self.run(text, 'step %d' % idx)
+            if o.errors:
+                code = o.errors[0][0]
+                self.pending_after_error = True
+                res.label('err:%d' % code)
+                if code != 14 or d >= 1:
+                    self.fail('oom.spurious' if code in (14, 7) else 'stmt.spurious-error',
+                              'step %d %r with exactly %d bytes free after a collection: error %d'
+                              % (idx, text, want, code))
+            else:
+                if d < 0:
+                    self.fail('oom.missing', 'step %d %r succeeded with only %d bytes free'
+                              % (idx, text, want))
+                m.set(op['t'], bytes([c]) * L)
+            return
+        # 'before': uncollected free space == L + d while plenty of garbage is reclaimable
+        free, _, _ = self.model_free()
+        if free < L + 40:
+            res.label('fit-skipped')
+            return
+        f0 = self.evaluate(b'FRE(0)')
+        if f0 < want + 1:
+            self.evaluate(b'FRE("")')
+            f0 = self.evaluate(b'FRE(0)')
+        todo = int(f0) - want
+        if todo < 1 or todo > 3000:
+            res.label('fit-skipped')
+            return
+        while todo > 0:
+            n = min(250, todo)
+            if not self.alloc(b'F0$', n, 88, idx, set_fill(0)):
+                return
+            todo -= n
+        self.run(b'F0$=""', 'step %d' % idx)
+        m.fill[0] = b''
+        f0 = self.evaluate(b'FRE(0)')
+        if f0 != want:
+            # steering relies on allocation details; no verdict without the exact situation
+            res.label('fit-steer-missed')
+            return
+        res.label('exact-fit-before-gc', 'exact-fit-before-gc:free-size=%+d' % d)
+        self.alloc(tname, L, c, idx, lambda v: m.set(op['t'], v))
 
     def go(self):
         case = self.case
@@ -652,8 +824,9 @@ class Runner(object):
                         self.stored.add(idx)
             res.label('mode:' + ('prog' if self.prog else 'direct'))
             res.label('slack:%s' % case.get('slack'))
-            self.clear_to(case.get('slack'))
+            self.clear_to(case.get('slack'), case.get('form', 'n'), case.get('stack'))
             self.setup_vars()
+            self.check_clear_fre()
             self.check_values('setup')
             last_gc = 0
             for idx, op in enumerate(case['ops']):
@@ -786,7 +959,9 @@ def gen_expr(ch, depth):
 
 
 OPS = [(40, 'let'), (8, 'midset'), (5, 'lset'), (5, 'rset'), (8, 'swap'), (4, 'redim'),
-       (6, 'fres'), (3, 'fre0'), (2, 'clear'), (9, 'eval')]
+       (6, 'fres'), (3, 'fre0'), (3, 'clear'), (9, 'eval'), (7, 'fit')]
+CLEAR_FORMS = ['n', 'n', 'ns', 's', 'en', 'plain']
+STACKS = [256, 512, 600, 1024]
 SLACKS = [120, 200, 300, 300, 500, 800, 800, 1500, 4000, None]
 
 
@@ -813,7 +988,14 @@ def gen_op(ch):
     if o == 'fre0':
         return {'o': 'fre', 's': False}
     if o == 'clear':
-        return {'o': 'clear', 'slack': ch.choice(SLACKS)}
+        return {'o': 'clear', 'slack': ch.choice(SLACKS), 'form': ch.choice(CLEAR_FORMS),
+                'stack': ch.choice(STACKS)}
+    if o == 'fit':
+        when = ch.choice(['before', 'before', 'after'])
+        return {'o': 'fit', 'when': when, 't': gen_target(ch),
+                'len': ch.choice([1, 2, 10, 50, 100, 200, 254, 255, ch.int(1, 255)]),
+                'd': ch.choice([-1, 0, 0, 1]) if when == 'before' else ch.choice([-1, 0, 1, 1, 2]),
+                'c': ch.int(0, 89)}
     return {'o': 'eval', 'e': gen_expr(ch, ch.int(1, 3))}
 
 
@@ -821,7 +1003,8 @@ def gen_case(ch, maxsteps):
     mode = 'prog' if ch.int(0, 3) == 0 else 'direct'
     slack = ch.choice(SLACKS)
     n = ch.int(5, maxsteps)
-    return {'mode': mode, 'slack': slack, 'ops': [gen_op(ch) for _ in range(n)]}
+    return {'mode': mode, 'slack': slack, 'form': ch.choice(['n', 'n', 'ns', 'en']),
+            'stack': ch.choice(STACKS), 'ops': [gen_op(ch) for _ in range(n)]}
 
 
 def max_steps():
@@ -862,6 +1045,29 @@ def _leak_case(first):
 
 
 REGRESSIONS = [
+    # fixed 8e64e579: CLEAR ,n (no stack size) silently left the memory size alone
+    {'mode': 'direct', 'slack': None, 'form': 'plain', 'ops': [
+        {'o': 'clear', 'size': 20000, 'form': 'n'},
+        {'o': 'let', 't': ['s', 0], 'e': ['string', 100, 65]},
+        {'o': 'fre', 's': True}]},
+    {'mode': 'direct', 'slack': None, 'form': 'plain', 'ops': [
+        {'o': 'clear', 'size': 30000, 'form': 'en', 'slack': 3},
+        {'o': 'clear', 'size': 20000, 'form': 'ns', 'stack': 1024},
+        {'o': 'clear', 'form': 's', 'stack': 256},
+        {'o': 'clear', 'form': 'plain'},
+        {'o': 'fre', 's': True}]},
+    # exact fit before a collection (wave-5 seed: no collection when FRE(0) == size)
+    {'mode': 'direct', 'slack': 1500, 'form': 'n', 'ops': [
+        {'o': 'let', 't': ['s', 2], 'e': ['string', 20, 99]},
+        {'o': 'fit', 'when': 'before', 't': ['s', 1], 'len': 236, 'd': 0, 'c': 55},
+        {'o': 'fit', 'when': 'before', 't': ['p', 1], 'len': 50, 'd': -1, 'c': 56},
+        {'o': 'fit', 'when': 'before', 't': ['q', 1, 1], 'len': 1, 'd': 0, 'c': 57},
+        {'o': 'fre', 's': True}]},
+    {'mode': 'direct', 'slack': 500, 'form': 'n', 'ops': [
+        {'o': 'fit', 'when': 'after', 't': ['s', 3], 'len': 100, 'd': 1, 'c': 58},
+        {'o': 'fit', 'when': 'after', 't': ['s', 0], 'len': 100, 'd': 0, 'c': 59},
+        {'o': 'fit', 'when': 'after', 't': ['p', 0], 'len': 255, 'd': -1, 'c': 60},
+        {'o': 'fre', 's': True}]},
     # fixed 23d8c7a7: early returns of RIGHT$/LEFT$/MID$/INSTR left their argument in
     # memory.temp_values; the next collection raised KeyError 'Dereferencing detached string'
     _leak_case({'o': 'eval', 'e': ['right', ['lit', 'abc'], 0]}),
@@ -931,6 +1137,9 @@ KILLS = [
     'revert 8b0d6f2c (get_stack not exception safe)  => escaped.KeyError@strings.py:_retrieve.after-error, fre.mismatch.after-error',
     'revert 43ccddd6 (_temp None -> TypeError)  => escaped.TypeError@strings.py:is_permanent',
     'revert d124a4a2 (collector copies aliased strings)  => value.scalar.aliased-gc, fre.negative.aliased-gc, oom.spurious.aliased-gc',
-    "SURVIVES: memory.py check_free '<=' -> '<' (allocation allowed when exactly `size` bytes are free): not observable, a success is never questioned and FRE stays consistent",
+    "wave-5 seed: check_free collects only when free < size and then refuses when free <= size (no collection at FRE(0) == size)  => oom.spurious* (fit ops 'exact-fit-before-gc', shrunk to A$=STRING$(1,33)), dim.error",
+    "memory.py check_free: refuse when free <= size + 1 (two spare bytes)  => oom.spurious (exact-fit-after-gc, free = size+1)",
+    "revert 8e64e579 (CLEAR ,n without stack size ignores n)  => clear.size-not-set (every history; REGRESSIONS 1-2)",
+    "SURVIVES (accepted by the documented assumption): memory.py check_free '<=' -> '<' in both tests (allocation allowed when exactly `size` bytes are free after a collection): the statement allows it; the unchanged tree keeps one spare byte, so both outcomes are accepted at free == size",
     "SURVIVES: strings.py _delete_last without 'self.current += length' (space reclaimed only at the next collection): FRE(0) without collection is not constrained from below",
 ]
